@@ -124,6 +124,10 @@ pub uninterp spec fn meta_mtime(m: &std::fs::Metadata) -> std::time::SystemTime;
 pub fn vx_fs_metadata(path: &std::path::Path) -> (r: std::io::Result<std::fs::Metadata>)
     ensures (match r { Ok(m) => fs_exists(path) && meta_mtime(&m) == fs_mtime(path), Err(e) => !fs_exists(path) && vx_kind(&e) == std::io::ErrorKind::NotFound })
 { std::fs::metadata(path) }
+/// not used by the real code: the metadata of the path itself (a symbolic link is NOT followed), which says nothing about the
+/// file it points to -- so a change that stats with this instead of fs::metadata is judged, not rejected as unsupported
+#[verifier::external_body]
+pub fn vx_fs_symlink_metadata(path: &std::path::Path) -> (r: std::io::Result<std::fs::Metadata>) { std::fs::symlink_metadata(path) }
 #[verifier::external_body]
 pub fn vx_meta_modified(m: &std::fs::Metadata) -> (r: std::io::Result<std::time::SystemTime>)
     ensures r is Ok, r->Ok_0 == meta_mtime(m)
